@@ -160,6 +160,9 @@ def _poison(draw):
     if k <= 5:
         return draw(st.sampled_from(POISON))
     if k == 6:
+        if draw(st.integers(0, 3)) == 0:
+            z = "0" * draw(st.sampled_from([300, 4400, 5000]))
+            return draw(st.sampled_from([z + "1.2.3.4", "1." + z + "2.3.4", "1.2.3." + z + "4", z, "9" * 5000, "::" + z[:3000] + "1", "1.2.3.4/" + z[:4400] + "8", "$9$" + "Q" * 5000, "$1$" + "a" * 5000 + "$b"]))
         return draw(st.sampled_from(_RUN_CHARS)) * draw(st.sampled_from([50, 400, 1100, 3000, 5000]))
     if k == 7:
         return draw(st.sampled_from(POISON)) + draw(st.sampled_from(POISON))
